@@ -34,7 +34,11 @@ Record obs_case := {
   oc_outs : list (func * option meaning);
   oc_fallback : meaning;
   oc_nprobes : nat;
-  oc_dec : bool;                                       (* decisions available (both lists built) *)
+  oc_cmp_build : bool;                                 (* values and outbounds are all valid: a build error can only be an empty condition *)
+  oc_raw_build_err : bool;                             (* implementation: building the un-merged list failed *)
+  oc_opt_build_err : bool;                             (* implementation: building the optimised list failed *)
+  oc_dec_raw_ok : bool;                                (* decisions of the un-merged list are available *)
+  oc_dec_opt_ok : bool;                                (* decisions of the optimised list are available *)
   oc_dec_raw : list (N * bool);                        (* implementation, matcher of the un-merged list *)
   oc_dec_opt : list (N * bool)                         (* implementation, matcher of the optimised list *)
 }.
@@ -61,13 +65,17 @@ Section Case.
   Definition model_stages : list (xres (list rule)) :=
     if oc_traffic c then traffic_stages (oc_db c) (oc_raw c) else dns_stages (oc_db c) (oc_raw c).
   Definition model_final : xres (list rule) := last model_stages XErr.
-  (* the model's compiled program: lower + scan on the model's optimised list *)
-  Definition model_decision (i : nat) : option (N * bool) :=
-    match model_final with
-    | XOk rs => Some (match compiled_decision nat meaning t_atom t_out rs i with
-                      | Some d => observable d | None => (7777%N, false) end)   (* 7777: "no match set hit" *)
-    | _ => None
+  (* the model's compiled program: lower + scan on the model's optimised list; None = build error *)
+  Definition compiled_obs (rs : list rule) (i : nat) : option (N * bool) :=
+    match compiled_decision nat meaning t_atom t_out rs i with
+    | CDecision d => Some (observable d)
+    | CNoHit => Some (7777%N, false)          (* "no match set hit" *)
+    | CBuildError => None
     end.
+  Definition model_builds (x : xres (list rule)) : bool :=
+    match x with XOk rs => match lower rs with Some _ => true | None => false end | _ => false end.
+  Definition model_decision (i : nat) : option (N * bool) :=
+    match model_final with XOk rs => compiled_obs rs i | _ => None end.
 
   Definition stage_agrees (m : xres (list rule)) (o : option (list rule)) : bool :=
     match m, o with
@@ -148,15 +156,10 @@ Section Case.
     match mid_stage with
     | XOk mid => N.eqb (n_out_hazards (map sort_funcs mid)) 0
                  && N.eqb (dedup_collisions (merge_sort_opt mid)) 0
-                 && N.eqb (n_empty_conditions (dedup_opt (merge_sort_opt mid))) 0
     | _ => true
     end.
   Definition model_mid_decision (i : nat) : option (N * bool) :=
-    match mid_stage with
-    | XOk rs => Some (match compiled_decision nat meaning t_atom t_out rs i with
-                      | Some d => observable d | None => (7777%N, false) end)   (* 7777: "no match set hit" *)
-    | _ => None
-    end.
+    match mid_stage with XOk rs => compiled_obs rs i | _ => None end.
 
   Fixpoint index_errs {A B} (f : nat -> A -> B -> bool) (i : nat) (l1 : list A) (l2 : list B) (code : N) : list (N * N) :=
     match l1, l2 with
@@ -173,15 +176,23 @@ Section Case.
        5            oracle tables incomplete or not alias/geodata respecting
        11 (probe i) implementation decision (optimised list) differs from the model's compiled program (tie, lowering+scan)
        12 (probe i) implementation decision (un-merged list) differs from the model's compiled program      (tie)
+       13           building the optimised list fails in the implementation but not in the model, or vice versa (tie)
+       14           the same for the un-merged list                                                             (tie)
        7 (probe i)  model decision differs from the spec, hypotheses do NOT hold (expected: refuted statement) *)
   Definition check_case : list (N * N) :=
     index_errs (fun _ m o => stage_agrees m o) 0 model_stages (oc_stages c) 1%N
     ++ (if atoms_known (oc_raw c) && table_respects
            && match model_final with XOk rs => atoms_known rs | _ => true end then [] else [(0, 5)]%N)
-    ++ (if oc_dec c then
+    ++ (if oc_cmp_build c && match model_final with XOk _ => true | _ => false end then
+          (if Bool.eqb (oc_opt_build_err c) (negb (model_builds model_final)) then [] else [(0, 13)]%N)
+          ++ (if Bool.eqb (oc_raw_build_err c) (negb (model_builds mid_stage)) then [] else [(0, 14)]%N)
+        else [])
+    ++ (if oc_dec_opt_ok c then
           index_errs (fun i _ d => obs_eqb d (spec_decision i)) 0 probes (oc_dec_opt c) 2%N
-          ++ index_errs (fun i _ d => obs_eqb d (spec_decision i)) 0 probes (oc_dec_raw c) 4%N
           ++ index_errs (fun i _ d => match model_decision i with Some m => obs_eqb d m | None => false end) 0 probes (oc_dec_opt c) 11%N
+        else [])
+    ++ (if oc_dec_raw_ok c then
+          index_errs (fun i _ d => obs_eqb d (spec_decision i)) 0 probes (oc_dec_raw c) 4%N
           ++ index_errs (fun i _ d => match model_mid_decision i with Some m => obs_eqb d m | None => false end) 0 probes (oc_dec_raw c) 12%N
         else [])
     ++ flat_map (fun i => match model_decision i with
